@@ -67,6 +67,7 @@ PLANS = {
     ],
     "levels": [
         ("ub", "dbg", "S", (3, 300), (8, 1500)), ("bb", "dbg", "S", (2, 300), (5, 1500)), ("ub", "asan", "S", (1, 150), (3, 600)),
+        ("ub", "dbg", "F", (2, 15), (5, 60)), ("bb", "dbg", "F", (1, 15), (3, 60)), ("ub", "tsan", "F", (2, 6), (4, 25)),
     ],
     "lines": [
         ("ub", "dbg", "S", (2, 300), (6, 1500)), ("ub", "asan", "S", (1, 150), (3, 600)),
